@@ -22,7 +22,7 @@ COMPILER_REPLAYS = {
     "u_mcall": ["replay/c07/call_instances.sh"],
     "u_link": ["replay/c13/link_error/run.sh"],
     "u_art": ["replay/c15/foreign_core.sh"],
-    "u_scope": ["replay/c05/run.sh", "replay/c05/shadow_toplevel.sh", "replay/c05/duplicate_params.sh", "replay/c06/crossfile_ctor.sh"],
+    "u_scope": ["replay/c05/run.sh", "replay/c05/shadow_toplevel.sh", "replay/c05/duplicate_params.sh", "replay/c06/crossfile_ctor.sh", "replay/c16/let_annotation.sh"],
     "u_closenv": ["replay/c08/run.sh"],
     "u_liftty": ["replay/c08/nested_tuple.sh"],
     "u_tastlit": ["replay/c10/run.sh"],
